@@ -85,3 +85,75 @@ Example C04_example :
   | None => False
   end.
 Proof. repeat split; vm_compute; reflexivity. Qed.
+
+(* ---- "skipping tagged fields it does not know" ----
+   A flexible struct whose tag buffer carries entries with tag ids the schema does not have —
+   before and after the entries it knows — decodes to the same value as without them, and the
+   decoder consumes exactly the struct's bytes (their payloads are read and thrown away; they
+   count as allocated because d.read makes a buffer for them). *)
+From KV Require Import Proofs.SchemaEqns Proofs.SchemaUnknownTags.
+
+Theorem C04_unknown_tags_skipped : forall c fields tagged fs ts br cnt bt pre post,
+  let t := TStruct fields tagged in
+  let v := VStruct fs ts in
+  schema_ok true t = true -> wfb true t v = true ->
+  enc_fields (encode true) fields fs = Some br ->
+  enc_tags (encode true) tagged ts = Some (cnt, bt) ->
+  unknown_ok tagged pre -> unknown_ok tagged post ->
+  let bs := br ++ tag_buffer pre cnt bt post in
+  forall rest extra al, (0 <= extra)%Z -> (lenZ bs + extra < ZM31)%Z ->
+    (al + alloc_of t v + unknown_alloc pre + unknown_alloc post <= budget c)%N ->
+    decode c true t (st (bs ++ rest) (lenZ bs + extra) al)
+    = Ok (canon t v) (st rest extra (al + alloc_of t v + unknown_alloc pre + unknown_alloc post)).
+Proof. exact unknown_tags_skipped. Qed.
+Print Assumptions C04_unknown_tags_skipped.
+
+(* the same through ReadResponse: "every well-formed response decodes to exactly the field values
+   the broker encoded and consumes exactly one frame, skipping tagged fields it does not know" —
+   tagged fields in the response header (the client knows none) and unknown ones in the body *)
+Theorem C04_response_unknown_tags : forall c fields tagged fs ts br cnt bt hdr pre post corr rest,
+  let t := TStruct fields tagged in
+  let v := VStruct fs ts in
+  schema_ok true t = true -> wfb true t v = true -> in_signed 4 corr ->
+  enc_fields (encode true) fields fs = Some br ->
+  enc_tags (encode true) tagged ts = Some (cnt, bt) ->
+  unknown_ok [] hdr -> unknown_ok tagged pre -> unknown_ok tagged post ->
+  let body := enc_i32 corr ++ (put_uvarint (N.of_nat (length hdr)) ++ enc_unknown hdr) ++
+              br ++ tag_buffer pre cnt bt post in
+  (Z.of_nat (length body) < ZM31)%Z ->
+  (unknown_alloc hdr + alloc_of t v + unknown_alloc pre + unknown_alloc post <= budget c)%N ->
+  read_response c true t (frame body ++ rest)
+  = Ok (corr, canon t v) (st rest 0 (unknown_alloc hdr + alloc_of t v + unknown_alloc pre + unknown_alloc post)).
+Proof. exact response_unknown_tags. Qed.
+Print Assumptions C04_response_unknown_tags.
+
+(* without unknown entries the buffer is the one the encoder writes *)
+Theorem C04_tag_buffer_plain : forall fields tagged fs ts br cnt bt,
+  enc_fields (encode true) fields fs = Some br ->
+  enc_tags (encode true) tagged ts = Some (cnt, bt) ->
+  encode true (TStruct fields tagged) (VStruct fs ts) = Some (br ++ tag_buffer [] cnt bt []).
+Proof. exact tag_buffer_plain. Qed.
+Print Assumptions C04_tag_buffer_plain.
+
+(* non-vacuity: ex_ty knows tag 0; entries with tags 1 (after) and 7 (before, as an old encoder
+   might order them) are skipped *)
+Example C04_unknown_tags_example :
+  let pre := [(7%Z, [1; 2; 3]%N)] in let post := [(1%Z, []); (9%Z, [255]%N)] in
+  unknown_ok [(0%Z, TInt 8)] pre /\ unknown_ok [(0%Z, TInt 8)] post /\
+  match ex_val, ex_ty with
+  | VStruct fs ts, TStruct fields tagged =>
+    match enc_fields (encode true) fields fs, enc_tags (encode true) tagged ts with
+    | Some br, Some (cnt, bt) =>
+        decode {| budget := 1000 |} true ex_ty
+          (st ((br ++ tag_buffer pre cnt bt post) ++ [9]%N) (lenZ (br ++ tag_buffer pre cnt bt post)) 0)
+        = Ok (canon ex_ty ex_val) (st [9]%N 0 (alloc_of ex_ty ex_val + 3 + 1))
+    | _, _ => False
+    end
+  | _, _ => False
+  end.
+Proof.
+  cbv zeta. split; [|split].
+  - repeat constructor; try (vm_compute; first [reflexivity | discriminate]); cbn; intuition discriminate.
+  - repeat constructor; try (vm_compute; first [reflexivity | discriminate]); cbn; intuition discriminate.
+  - vm_compute. reflexivity.
+Qed.
